@@ -17,6 +17,9 @@ type Instance interface {
 	Close()
 }
 
+// Outcomer is optionally implemented by instances to classify what the last operation did.
+type Outcomer interface{ LastOutcome() string }
+
 type SeqConfig struct {
 	Name       string
 	Fresh      func() Instance
@@ -82,6 +85,9 @@ func BFS(c *Ctx, cfg SeqConfig) {
 						res.Transitions++
 						res.Traces++
 						res.Op(opKind(op))
+						if oc, ok := inst.(Outcomer); ok && v == nil {
+							res.Outcome(cfg.Name + ":" + opKind(op) + ":" + oc.LastOutcome())
+						}
 					}
 					if v != nil {
 						hist := append(append([]string{}, nd.hist...), op)
